@@ -279,7 +279,7 @@ class Gen:
     def msm(self, r, f, mode, invalid=None):
         gnss = f["gnss"]
         if invalid is None and mode == "wild" and r.random() < 0.35:
-            invalid = r.choice(["sat0", "sat65", "badsig", "dupsat", "dupcell", "mismatch-extra-sat", "mismatch-extra-cell",
+            invalid = r.choice(["sat0", "sat65", "cellsat0", "badsig", "dupsat", "dupcell", "mismatch-extra-sat", "mismatch-extra-cell",
                                 "cells65", "empty", "only-sats", "only-cells"])
         S, G, cells = self.msm_sets(r, gnss, max_cells=64 if invalid is None else 24)
         if invalid is not None and len(S) > 8:
@@ -293,6 +293,8 @@ class Gen:
             S[0:1] = [0]
         elif invalid == "sat65":
             S.append(r.choice([65, 200, 255]))
+        elif invalid == "cellsat0":
+            cells[r.randrange(len(cells))] = (r.choice([0, 65, 255]), cells[0][1])
         elif invalid == "badsig":
             cells[r.randrange(len(cells))] = (cells[0][0], self.bad_sig(r, gnss))
         elif invalid == "dupsat":
